@@ -28,7 +28,7 @@ RULE = ('plan kinds: (a) stream = good/bad frames (bad = one of 25 '
         'just below / at / above the real response size. Non-trivial: the '
         'stream has an undecodable frame followed by a valid one and a '
         'non-trivial chunk plan. Distinct = stream digest.')
-PROBES = ['undecodable_then_good', 'decodable_mutant', 'all_split_points',
+PROBES = ['final_request_vs_fresh_server', 'undecodable_then_good', 'decodable_mutant', 'all_split_points',
           'response_too_large', 'response_fits_exactly', 'trickle',
           'header_split', 'timeout_fault', 'reset_fault', 'eof_mid_frame',
           'whole_connection', 'deep_nesting', 'leftover_bytes',
@@ -151,6 +151,11 @@ def generate(rng, tier, index):
                        'mut': mutate.gen_spec(r)})
         if r.random() < 0.15:
             stream[-1]['mut2'] = mutate.gen_spec(r)
+    for el in stream:
+        if r.random() < 0.2:
+            # a size limit on an earlier request of the connection (valid or
+            # about to be corrupted): it is that request's business only
+            el['req']['maxresp'] = r.choice([64, 128, 256, 400])
     stream.append({'req': {'actor': 0, 'ver': list(r.choice(gen.VERSIONS)),
                            'items': [r.choice(GOOD_TAIL)]}, 'mut': None})
     plan['stream'] = stream
@@ -474,7 +479,15 @@ def execute(plan):
                         rp.items[0]['op'] is None and \
                         rp.items[0]['status'] != 0:
                     probes['engine_rejected_header'] += 1
-                    if x['changed']:
+                    own_limit = i < len(plan['stream']) and \
+                        plan['stream'][i]['req'].get('maxresp') is not None
+                    if x['changed'] and not (
+                            own_limit and rp.items[0]['reason_name']
+                            == 'ResponseTooLarge'):
+                        # (an answer replaced because it exceeds the limit
+                        # the request itself set is what C12 asks for; that
+                        # the request was executed first is C08's open
+                        # finding 4, not a C12 matter)
                         flag('rejected-request-changed-store',
                              why=rp.items[0]['reason_name'])
                 if plan['stream'] and i < len(frames) - 1:
@@ -501,6 +514,19 @@ def execute(plan):
             if any(not d for d in dec):
                 probes['undecodable_then_good'] += 1
                 nontrivial = bool(plan['chunks_a'] or plan['chunks_b'])
+        # ... and, when nothing before it changed the store, the same answer
+        # as from a server that has seen nothing but this request
+        if len(frames) == len(plan['stream']) and len(frames) > 1 and \
+                not leftover and not any(x['changed'] for x in ra[:-1]):
+            rf, _ = run_frames(plan, [frames[-1]], None)
+            probes['final_request_vs_fresh_server'] += 1
+            if rf[0]['sent'] != ra[-1]['sent']:
+                flag('earlier-frames-influenced-later-request',
+                     why='fresh-server-differs',
+                     earlier=[(el['req']['items'][0]['op'],
+                               (el.get('mut') or {}).get('kind'),
+                               el['req'].get('maxresp'))
+                              for el in plan['stream'][:-1]])
         sent_all = [x['sent'] for x in ra]
     else:
         probes['whole_connection'] += 1
